@@ -252,3 +252,14 @@ def share(ctx, module, prefix, only=None):
         return
     mod = importlib.import_module('hepsa.rules.' + module)
     mod.check(Proxy(ctx, prefix, only))
+
+
+def calls_list_term(d):
+    """term of the driver parameter that holds the per-iteration call counts (found by its type,
+    not by its name)"""
+    ps = [q for q in d.params if 'vector<std::size_t>' in (q.type or '').replace(' ', '') or
+          'vector<unsignedlong' in (q.type or '').replace(' ', '')]
+    if len(ps) != 1:
+        raise AnalysisBroken('%s: the list of calls per iteration is not a single vector<size_t> parameter'
+                             % d.qualname)
+    return T.sym(ps[0].name)
